@@ -40,6 +40,54 @@ def parse_frac(s):
     return Fraction(int(n), int(d))
 
 
+def _cvc5_verdict(smt2_text, tlimit_ms, hard_timeout_s):
+    """verdict of cvc5 on an SMT-LIB2 script, computed in a forked child that is killed after hard_timeout_s (cvc5's own
+    time limit is not honoured inside some preprocessing passes); None when there is no verdict"""
+    import select
+    import signal
+    r, w = os.pipe()
+    pid = os.fork()
+    if pid == 0:
+        out = b'none'
+        try:
+            os.close(r)
+            import cvc5
+            slv = cvc5.Solver()
+            slv.setOption('tlimit-per', str(tlimit_ms))
+            slv.setLogic('ALL')
+            sm = cvc5.SymbolManager(slv)
+            prs = cvc5.InputParser(slv, sm)
+            prs.setStringInput(cvc5.InputLanguage.SMT_LIB_2_6, smt2_text, 'obligation')
+            while True:
+                cmd = prs.nextCommand()
+                if cmd.isNull():
+                    break
+                o = str(cmd.invoke(slv, sm)).strip()
+                if o in ('sat', 'unsat', 'unknown'):
+                    out = o.encode()
+        except BaseException:  # noqa
+            pass
+        try:
+            os.write(w, out)
+        finally:
+            os._exit(0)
+    os.close(w)
+    res = None
+    try:
+        ready, _, _ = select.select([r], [], [], hard_timeout_s)
+        if ready:
+            res = os.read(r, 16).decode() or None
+        else:
+            os.kill(pid, signal.SIGKILL)
+    finally:
+        os.close(r)
+        try:
+            os.waitpid(pid, 0)
+        except ChildProcessError:
+            pass
+    return res if res in ('sat', 'unsat', 'unknown') else None
+
+
 class Job:
     """Runs inside a worker process; collects obligations of one configuration."""
 
@@ -132,22 +180,8 @@ class Job:
             txt = solver.to_smt2()
             if 'FloatingPoint' in txt or 'RoundingMode' in txt or len(txt) > 400000:
                 return
-            import cvc5
             self.xcheck_budget -= 1
-            slv = cvc5.Solver()
-            slv.setOption('tlimit-per', '20000')
-            slv.setLogic('ALL')
-            sm = cvc5.SymbolManager(slv)
-            prs = cvc5.InputParser(slv, sm)
-            prs.setStringInput(cvc5.InputLanguage.SMT_LIB_2_6, txt, 'obligation')
-            res = None
-            while True:
-                cmd = prs.nextCommand()
-                if cmd.isNull():
-                    break
-                out = str(cmd.invoke(slv, sm)).strip()
-                if out in ('sat', 'unsat', 'unknown'):
-                    res = out
+            res = _cvc5_verdict(txt, 10000, 20.0)
             if res in ('sat', 'unsat'):
                 self.xchecked += 1
                 if res != verdict:
@@ -432,7 +466,7 @@ def drive(mod, tier, seed, nproc=None):
         'second_solver': {'name': 'cvc5', 'version': _cvc5_version(), 'obligations_rechecked': tot['xchecked'],
                           'disagreements': tot['xcheck_disagree'], 'inconclusive_or_skipped': tot['xcheck_inconclusive'],
                           'rule': 'the first solver-decided obligation(s) of every job (1 quick / 5 thorough), dumped as SMT-LIB2 and '
-                                  're-decided by cvc5 under a 20 s limit; floating-point queries are skipped'},
+                                  're-decided by cvc5 in a child process (10 s solver limit, killed after 20 s); floating-point queries are skipped'},
         'trace_validation_points': tot['validated'] + int(pre.get('validated', 0)),
         'excluded_configurations': tot['excluded'],
         'functions_encoded': meta.get('functions_encoded', []),
